@@ -264,7 +264,7 @@ SPEC = {
         "excluded_declarations", "used_iff_reachable_of_result", "usage_loop_terminates", "used_sound_complete", "used_flag",
         "hlsl_params_of_targets", "hlsl_annotations_total", "annot_iff_entry", "annotations_match_metadata_hlsl",
         "entry_named_and_defined", "thread_group_size_ambiguous_witness", "stage_records_follow_properties",
-        "reported_size_is_the_typers_record", "pipeline_names_distinct", "reported_name_denotes_one_symbol",
+        "reported_size_is_the_typers_record", "pipeline_names_distinct", "reported_name_denotes_one_symbol", "hlsl_entry_point_unambiguous",
         "reported_name_not_reserved", "name_kept_when_unique_and_free", "hlsl_cbuffer_bypasses_name_map_witness",
         "same_leaf_name_in_two_namespaces_witness"]],
     "harness": "c05",
